@@ -17,7 +17,7 @@ import numpy as np
 
 from harness import common, gen
 
-MODULES = ['CirqVerif.Props.C04']
+MODULES = ['CirqVerif.Props.C04', 'CirqVerif.Props.C04Rules', 'NonVacuity.ComplexModel']
 
 
 def mat(out):
@@ -64,6 +64,7 @@ def run(ctx: common.Run):
     if not ok:
         ctx.report_unproved('lean-build', f'{failing}', {'theorem_or_correspondence': failing})
         return
+    check_decompose_rules(ctx, cirq)
     n = 250 if ctx.tier == 'quick' else 3000
     rng = ctx.substream('ops')
     reqs, meta = [], []
@@ -284,6 +285,69 @@ def run(ctx: common.Run):
             ctx.report_witness(f'{kind}', f'{kind} on axes {positions} of a tensor of shape {shape} differs from the action of the reported matrix',
                                {'lines': [{'op': desc, 'shape': shape, 'axes': positions}], 'impl_out': [repr(np.round(got[:32], 6).tolist())],
                                 'spec_out': [repr(np.round(want[:32], 6).tolist())], 'theorem_or_correspondence': 'applyOp via runArr_refines'})
+
+
+def check_decompose_rules(ctx, cirq):
+    """`_decompose_` yields exactly the patterns Props/C04Rules.lean multiplies out for every parameter value: the theorem on the left
+    decides what the pattern means, this stream that the pattern is what the gate family decomposes into."""
+    rng = ctx.substream('decompose-rules')
+    n = 25 if ctx.tier == 'quick' else 400
+    a, b, c = cirq.NamedQubit('a'), cirq.NamedQubit('b'), cirq.NamedQubit('c')  # no adjacency notion: the default qubit order
+    X, Y, Z, H, CNOT = cirq.X, cirq.Y, cirq.Z, cirq.H, cirq.CNOT
+
+    def generic():
+        while True:
+            t = round(rng.uniform(-1.9, 1.9), 4)
+            if min(abs(t - x) for x in (-1.5, -1, -0.5, 0, 0.5, 1, 1.5)) > 1e-3:
+                return t
+
+    for it in range(n):
+        t, p, s = generic(), round(rng.uniform(-1, 1), 4), rng.choice([0, -0.5, 0.25, 0.5, 1 / 3])
+        x, z, ax = (round(rng.uniform(-1, 1), 4) for _ in range(3))
+        th, ph = round(rng.uniform(-3, 3), 4), round(rng.uniform(-3, 3), 4)
+        T = cirq.T ** t
+        sweep = [CNOT(a, b), CNOT(b, c)]
+        gp = cirq.global_phase_operation(np.exp(1j * np.pi * t * s))
+        cases = [
+            ('C04_decompose_phasedx', cirq.PhasedXPowGate(exponent=t, phase_exponent=p, global_shift=s).on(a),
+             [Z(a) ** -p, cirq.XPowGate(exponent=t, global_shift=s).on(a), Z(a) ** p]),
+            ('C04_decompose_hpow', cirq.HPowGate(exponent=t, global_shift=s).on(a), [Y(a) ** 0.25, cirq.XPowGate(exponent=t, global_shift=s).on(a), Y(a) ** -0.25]),
+            ('C04_decompose_hpow_one', cirq.HPowGate(exponent=1, global_shift=s).on(a), [Y(a) ** 0.5, cirq.XPowGate(global_shift=-0.25 + s).on(a)]),
+            ('C04_decompose_phasedxz', cirq.PhasedXZGate(x_exponent=x, z_exponent=z, axis_phase_exponent=ax).on(a), [Z(a) ** -ax, X(a) ** x, Z(a) ** (ax + z)]),
+            ('C04_decompose_cxpow', cirq.CXPowGate(exponent=t, global_shift=s).on(a, b), [Y(b) ** -0.5, cirq.CZPowGate(exponent=t, global_shift=s).on(a, b), Y(b) ** 0.5]),
+            ('C04_decompose_swappow', cirq.SwapPowGate(exponent=t, global_shift=s).on(a, b), [CNOT(a, b), cirq.CXPowGate(exponent=t, global_shift=s).on(b, a), CNOT(a, b)]),
+            ('C04_decompose_iswappow', cirq.ISwapPowGate(exponent=t, global_shift=s).on(a, b),
+             [CNOT(a, b), H(a), CNOT(b, a), cirq.ZPowGate(exponent=t / 2, global_shift=s).on(a), CNOT(b, a), cirq.ZPowGate(exponent=-t / 2, global_shift=-s).on(a), H(a), CNOT(a, b)]),
+            ('C04_decompose_zzpow', cirq.ZZPowGate(exponent=t, global_shift=s).on(a, b), [Z(a) ** t, Z(b) ** t, cirq.CZPowGate(exponent=-2 * t, global_shift=-s / 2).on(a, b)]),
+            ('C04_decompose_xxpow', cirq.XXPowGate(exponent=t, global_shift=s).on(a, b), [Y(a) ** -0.5, Y(b) ** -0.5, cirq.ZZPowGate(exponent=t, global_shift=s).on(a, b), Y(a) ** 0.5, Y(b) ** 0.5]),
+            ('C04_decompose_yypow', cirq.YYPowGate(exponent=t, global_shift=s).on(a, b), [X(a) ** 0.5, X(b) ** 0.5, cirq.ZZPowGate(exponent=t, global_shift=s).on(a, b), X(a) ** -0.5, X(b) ** -0.5]),
+            ('C04_decompose_fsim', cirq.FSimGate(th, ph).on(a, b),
+             [cirq.XXPowGate(exponent=th / np.pi, global_shift=-0.5).on(a, b), cirq.YYPowGate(exponent=th / np.pi, global_shift=-0.5).on(a, b), cirq.CZ(a, b) ** (-ph / np.pi)]),
+            ('C04_decompose_phasediswap', cirq.PhasedISwapPowGate(phase_exponent=p, exponent=t).on(a, b), [Z(a) ** p, Z(b) ** -p, cirq.ISwapPowGate(exponent=t).on(a, b), Z(a) ** -p, Z(b) ** p]),
+            ('C04_decompose_ccxpow', cirq.CCXPowGate(exponent=t, global_shift=s).on(a, b, c), [H(c), cirq.CCZPowGate(exponent=t, global_shift=s).on(a, b, c), H(c)]),
+            ('C04_decompose_cczpow', cirq.CCZPowGate(exponent=t, global_shift=s).on(a, b, c),
+             ([gp] if s != 0 else []) + [T(a), T(b), T(c), *sweep, T(b) ** -1, T(c), *sweep, T(c) ** -1, *sweep, T(c) ** -1, *sweep]),
+        ]
+        for rule, op, want in cases:
+            ctx.count('check', 'decompose-rule:' + rule)
+            ctx.case(['decompose-rule', rule, repr(op)], True)
+            rep = {'lines': [{'rule': rule, 'op': repr(op)}], 'theorem_or_correspondence': rule}
+            try:
+                got = list(cirq.flatten_to_ops(cirq.decompose_once(op)))
+            except Exception as e:  # noqa: BLE001
+                ctx.report_witness(f'decompose-rule:{rule}:raises', 'a library gate with a documented decomposition cannot be decomposed', dict(rep, impl_out=[f'{type(e).__name__}: {e}'[:300]], spec_out=[repr(want)[:1500]]))
+                continue
+            if len(got) == len(want) and all(g.qubits == w.qubits and cirq.approx_eq(g, w, atol=1e-9) for g, w in zip(got, want)):
+                continue
+            # another pattern is not a violation by itself: its product decides
+            qs = sorted(op.qubits)
+            u_dec = cirq.Circuit(got).unitary(qubit_order=qs) if got else np.eye(2 ** len(qs))
+            u = cirq.unitary(op)
+            if np.allclose(u_dec, u, atol=1e-7):
+                ctx.report_unproved(rule, 'the gate no longer decomposes into the pattern the theorem multiplies out (the new pattern still has the matrix of the gate in floats)',
+                                    dict(rep, impl_out=[repr(got)[:1500]], spec_out=[repr(want)[:1500]]))
+            else:
+                ctx.report_witness(f'decompose-rule:{rule}', 'the decomposition of the gate does not have the matrix of the gate', dict(rep, impl_out=[repr(got)[:1500]], spec_out=[repr(want)[:1500]]))
 
 
 def replay(ctx, rep):
